@@ -127,6 +127,15 @@ def check(ctx, rep):
     br = [r for r, c in ctx.raises_in(gl) if c == 'BAD_RECORD_NUMBER']
     ok = len(br) == 1 and fl.knows(br[0], 'lock_start_rec < 1 or lock_start_rec > 2 ** 25 - 2 or lock_stop_rec < 1 or (lock_stop_rec > 2 ** 25 - 2)', True)
     rep.ob('limits.record-numbers', 'lock bounds outside 1..2^25-2 raise Bad record number', ok, '', ctx.where(gl))
+    # defaults: the whole file only if BOTH bounds are left out; a missing start is 1, a missing stop is the start
+    whole = [r for r in own_nodes(gl) if isinstance(r, ast.Return) and norm(r.value) == '(None, None)']
+    facts = [sorted((f.text, f.pol) for f in fl.facts(r) if 'lock_' in f.text and ' and ' not in f.text and ' or ' not in f.text) for r in whole]
+    rep.ob('limits.whole-file-only-without-bounds', 'a whole-file lock is returned iff both bounds are None', facts == [[('lock_start_rec is None', True), ('lock_stop_rec is None', True)]],
+           'a lock with one bound given would cover the whole file: %r' % facts, ctx.where(gl))
+    dflt = dict((norm(a.targets[0]), (norm(a.value), sorted((f.text, f.pol) for f in fl.facts(a) if f.text.endswith('is None') and f.pol)))
+                for a in own_nodes(gl) if isinstance(a, ast.Assign) and not isinstance(a.value, ast.Call))
+    rep.ob('limits.whole-file-only-without-bounds', 'a missing start is record 1, a missing stop is the start record',
+           dflt == {'lock_start_rec': ('1', [('lock_start_rec is None', True)]), 'lock_stop_rec': ('lock_start_rec', [('lock_stop_rec is None', True)])}, repr(dflt), ctx.where(gl))
     for meth in ('lock_', 'unlock_'):
         fn = ctx.fn('%s:Files.%s' % (FILES, meth))
         c = [x for x in own_nodes(fn) if isinstance(x, ast.Call) and norm(x.func) == 'thefile.' + meth.rstrip('_')]
@@ -148,6 +157,9 @@ def variants(ctx):
 
     cur = 'start <= stop_1 and start_1 <= stop'
     return [
+        mu.Variant('one-bound-locks-whole-file', 'break', FILES,
+                   lambda tree: mu.replace_expr(mu.find_def(tree, 'Files._get_lock_limits'), mu.text_is('lock_start_rec is None and lock_stop_rec is None'), 'lock_start_rec is None or lock_stop_rec is None'),
+                   expect='limits.whole-file-only-without-bounds'),
         Va('get-checks-lock-only-inside-file', 'break', DF, lambda tree: _lock_in_else(mu.find_def(tree, 'RandomFile.get')), expect='access.record-check-unconditional'),
         Va('endpoint-containment-only', 'break', DF,
            in_fn('Locks._try_record_lock', lambda fn: mu.replace_expr(fn, mu.text_is(cur), '(start >= start_1 and start <= stop_1) or (stop >= start_1 and stop <= stop_1)')),
